@@ -16,7 +16,7 @@
 (***************************************************************************)
 EXTENDS BitBlastCase
 
-CONSTANTS Widths, Consts, MulMax
+CONSTANTS Widths, Consts, MulMax, FxLayouts, FxFloats
 VARIABLE c
 
 Arith == {"Add", "Sub", "Mult", "BitXor", "BitAnd", "BitOr", "Mod"}
@@ -27,9 +27,18 @@ Cases == {x \in [op : Arith \cup Cmps, l : Operands, r : Operands] :
             /\ (x.op = "Mod" => x.r.k = "const")}
          \cup [op : Shifts, l : [k : {"sym"}, w : Widths], r : [k : {"const"}, w : {0, 1, 2, 3}]]
 
-Init == c \in Cases
+\* fixed point: arguments of every layout in FxLayouts, float literals, every pair
+\* (the cfg grammar has no tuples: a layout <<i, f>> is written 10*i + f, a literal num/den is written 100*num + den)
+FxArgs == {[k |-> "fx", i |-> l \div 10, f |-> l % 10] : l \in FxLayouts}
+FxLits == {[k |-> "flt", num |-> q \div 100, den |-> q % 100] : q \in FxFloats}
+FxCases == {x \in [op : {"Add", "Sub"} \cup Cmps, l : FxArgs \cup FxLits, r : FxArgs \cup FxLits] : x.l.k = "fx" \/ x.r.k = "fx"}
+           \cup [op : {"Mult"}, l : FxArgs, r : [k : {"int"}, v : {0, 1, 2, 3}]]
+IsFx(x) == x.l.k \in {"fx", "flt"}
+
+Init == c \in Cases \cup FxCases
 Next == FALSE /\ c' = c
 Spec == Init /\ [][Next]_c
 OK == /\ PrintT(<<"C", ToJson(c)>>)
-      /\ Bad(c) = "" \/ PrintT(<<"B", Bad(c), ToJson(c)>>)
+      /\ IF IsFx(c) THEN FxRejected(c) \/ FxBad(c) = "" \/ PrintT(<<"B", FxBad(c), ToJson(c)>>)
+         ELSE Bad(c) = "" \/ PrintT(<<"B", Bad(c), ToJson(c)>>)
 =============================================================================
